@@ -286,6 +286,11 @@ def oracle_load(ctx, RepCode, bf, pi, sl, chans, res, case, prior_bad_ctor=False
     if res['err']:
         # F20: an earlier load with a channel index out of range left the LogPass without its _frameSet attribute
         fid = 'F20' if (res['err'] == 'err attributeError' and prior_bad_ctor) else None
+        if res['err'] == 'err zeroDiv' and 0 in lp.fpr:
+            # F22: a zero-frame data record; every frame at or after it cannot be located
+            z = lp.rec_first[lp.fpr.index(0)]
+            if any(fr >= z for fr in frames):
+                fid = 'F22'
         return ctx.fail(case, 'setFrameSet raised %s for an in-range selection' % res['err'], finding=fid)
     if chans is None:
         cols = list(range(nch))
@@ -314,7 +319,9 @@ def oracle_load(ctx, RepCode, bf, pi, sl, chans, res, case, prior_bad_ctor=False
     if xs != want_x:
         dev = [i for i, (a, b) in enumerate(zip(xs, want_x)) if a != b]
         detail = 'X of loaded frame %d (frame %d): got %s, true %s' % (dev[0], frames[dev[0]], xs[dev[0]], want_x[dev[0]])
-        if lp.indirect and chans != [] :
+        if lp.indirect and chans == []:
+            finding = 'F21'       # no channel selected: no event is generated, the implied X vector stays uninitialised
+        elif lp.indirect:
             rule, cls = f7_rule(lp, frames, (sl[2] or 1) if sl else 1)
             if all(cls[i] and xs[i] == float(rule[i]) for i in dev) and (sl is not None and (sl[2] or 1) > 1):
                 finding = 'F7'
@@ -381,14 +388,15 @@ def oracle_index(ctx, bf, idx, case):
             return ctx.fail(case, 'log pass at %d: %d frames, true %d' % (e.tell, L.totalFrames, lp.total))
         if lp.total and float(L.xAxisFirstVal) != float(lp.x[0]):
             return ctx.fail(case, 'log pass at %d: first X %s, true %s' % (e.tell, L.xAxisFirstVal, lp.x[0]))
-        if lp.total > 1 and lp.evenly_spaced and len(lp.fpr) > 1:
+        if lp.total > 1 and lp.evenly_spaced and sum(1 for n in lp.fpr if n) > 1:
             if L.xAxisLastVal is None or float(L.xAxisLastVal) != float(lp.x[-1]):
                 return ctx.fail(case, 'log pass at %d: last X %s, true %s' % (e.tell, L.xAxisLastVal, lp.x[-1]))
         # data record positions known to the log pass
         seeks = []
-        for fr in range(lp.total):
+        nfr = lp.total if 0 not in lp.fpr else lp.rec_first[lp.fpr.index(0)]      # F22: frames behind a zero-frame record
+        for fr in range(nfr):
             seeks.append(L.rle.tellLrForFrame(fr))
-        want_seeks = [(bf.tells[p['data_lrs'][lp.record_of(fr)[0]]], lp.record_of(fr)[1]) for fr in range(lp.total)]
+        want_seeks = [(bf.tells[p['data_lrs'][lp.record_of(fr)[0]]], lp.record_of(fr)[1]) for fr in range(nfr)]
         if seeks != want_seeks:
             k = next(k for k, (a, b) in enumerate(zip(seeks, want_seeks)) if a != b)
             return ctx.fail(case, 'frame %d located at (record tell, offset) %s, true %s' % (k, seeks[k], want_seeks[k]))
@@ -420,9 +428,9 @@ def random_loads(rng, bf, nmax=5):
             else:
                 k = rng.randint(1, nch)
                 ch = [rng.randrange(nch) for _ in range(k)] if rng.random() < 0.3 else sorted(rng.sample(range(nch), k))
-                if rng.random() < 0.03:
+                if rng.random() < 0.012:
                     ch = ch + [nch + rng.randint(0, 2)]
-                if rng.random() < 0.04 and not lp.indirect:
+                if rng.random() < 0.04:
                     ch = []
             loads.append([pi, sl, ch])
     rng.shuffle(loads)
@@ -493,6 +501,12 @@ def run_case(ctx, mods, fdesc, loads, model_reply=None, judge_only=None):
                 i = s.find(' ops=')
                 return (s, '') if i < 0 else (s[:i], s[i + 5:])
             a, aops = split_ops(ims); b, bops = split_ops(ms)
+            if ' X=' in a and ' X=' in b and 'U' in b[b.find(' X='):]:
+                # cells the model marks as never written hold arbitrary memory in numpy.empty: not comparable
+                ax, bx = a[a.find(' X=') + 3:].split(','), b[b.find(' X=') + 3:].split(',')
+                if len(ax) == len(bx):
+                    a = a[:a.find(' X=') + 3] + ','.join('U' if y == 'U' else x for x, y in zip(ax, bx))
+                    ctx.count('uninitialised_cells_not_compared', bx.count('U'))
             ctx.corr('load', dict(case_base, at=k), a, b)
             ctx.corr('fileops', dict(case_base, at=k), aops, bops)
     return bf, results
@@ -593,7 +607,7 @@ def run(ctx):
     cases = [(F7_WITNESS, [[0, [0, 16, 2], None], [0, None, None], [0, [0, 16, 2], [1, 3]], [0, [1, 15, 3], None]])]
     for k in range(ctx.n(260, 2500)):
         small = rng.random() < 0.5
-        fdesc = lislog.random_file_desc(rng, max_passes=2, small=small, jitter=rng.random() < 0.2,
+        fdesc = lislog.random_file_desc(rng, max_passes=2, small=small, jitter=rng.random() < 0.2, zero_rec=0.03,
                                         max_rec=rng.choice([1, 3, 6]), max_fpr=rng.choice([1, 3, 7, 12]))
         bf = lislog.build_file(fdesc)
         cases.append((fdesc, random_loads(rng, bf)))
